@@ -115,6 +115,10 @@ func runC19(c *Ctx) {
 	}
 	c.R.Floor(r1, 13)
 
+	const r4 = "C19.R4 the URI rule configured for the realm reaches broker and dealer"
+	ruleRealmWiring(c, r4)
+	c.R.Floor(r4, 4)
+
 	const r2 = "C19.R2 prefix and wildcard matching"
 	ruleMatchFunctions(c, r2)
 	c.R.Floor(r2, 6)
@@ -160,7 +164,8 @@ func runC19(c *Ctx) {
 		}
 		c.R.Check(ok, r3, "wamp.Session", "session request ids come from the synchronised generator", "-", "Session.IDGen is not a SyncIDGen: concurrent API calls can draw the same request id")
 	}
-	c.R.Floor(r3, 16)
+	ruleLastRecvID(c, r3)
+	c.R.Floor(r3, 19)
 }
 
 // ruleMatchFunctions: PrefixMatch is strings.HasPrefix; WildcardMatch compares component counts and every non-empty
